@@ -200,6 +200,9 @@ func runC17(c *Ctx) {
 				}
 				if !ok || !isNamed(al.Type(), core.ModulePath+"/result", "TracerouteHop") {
 					// any other store into the document
+					if fa, isFA := st.Addr.(*ssa.FieldAddr); isFA && isNamed(fa.X.Type(), core.ModulePath+"/result", "TracerouteHop") {
+						continue // a hop scrubbed in place: decided below, field by field
+					}
 					if root, _ := addrRootFields(st.Addr); len(g.Params) > 0 && root == ssa.Value(g.Params[0]) {
 						R.Fail("R17.2", gfn+"#other-store", st.Pos(), gfn, "the redaction pass writes something other than a placeholder hop into the document")
 					}
@@ -278,6 +281,7 @@ func runC17(c *Ctx) {
 	if nrep == 0 {
 		// alternative shape: the hop is scrubbed in place. Every field except TTL must then be reset to its zero value.
 		cleared := map[string]bool{}
+		scrubIn := map[*ssa.Function]ssa.Value{} // function that scrubs → the hop it scrubs
 		var hopT *types.Struct
 		var pos token.Pos
 		for _, g := range cands {
@@ -296,6 +300,7 @@ func runC17(c *Ctx) {
 					}
 					hopT = fa.X.Type().Underlying().(*types.Pointer).Elem().Underlying().(*types.Struct)
 					pos = st.Pos()
+					scrubIn[g] = fa.X
 					zero := false
 					if cst, ok := st.Val.(*ssa.Const); ok {
 						zero = cst.Value == nil || cst.Value.ExactString() == "0" || cst.Value.ExactString() == "false" || cst.Value.ExactString() == "\"\""
@@ -316,6 +321,78 @@ func runC17(c *Ctx) {
 				if n := hopT.Field(i).Name(); n != "TTL" && !cleared[n] {
 					missing = append(missing, n)
 				}
+			}
+			// R17.3 for this shape: the scrub (or the call of the scrubbing method) depends on exactly IsPrivate(hop.IPAddress) of that hop
+			for g, hop := range scrubIn {
+				type site struct {
+					f    *ssa.Function
+					b    *ssa.BasicBlock
+					subj ssa.Value
+					pos  token.Pos
+				}
+				var sites []site
+				if pa, isParam := hop.(*ssa.Parameter); isParam && g != rm {
+					idx := 0
+					for k, q := range g.Params {
+						if q == pa {
+							idx = k
+						}
+					}
+					for _, h := range cands {
+						for _, b := range h.Blocks {
+							for _, in := range b.Instrs {
+								if call, ok := in.(*ssa.Call); ok && call.Common().StaticCallee() == g && idx < len(call.Common().Args) {
+									sites = append(sites, site{h, b, call.Common().Args[idx], call.Pos()})
+								}
+							}
+						}
+					}
+				} else {
+					for _, b := range g.Blocks {
+						for _, in := range b.Instrs {
+							if st, ok := in.(*ssa.Store); ok {
+								if fa, ok := st.Addr.(*ssa.FieldAddr); ok && fa.X == hop {
+									sites = append(sites, site{g, b, hop, st.Pos()})
+								}
+							}
+						}
+					}
+				}
+				okPred := len(sites) > 0
+				detail := ""
+				for _, s := range sites {
+					paths, _ := core.EnumPaths(s.f, s.b, 2000)
+					for _, pa := range paths {
+						env := core.NewEnv(c.P, pa)
+						atoms := env.Atoms()
+						if !core.Feasible(atoms) {
+							continue
+						}
+						subj := env.Term(s.subj).Key()
+						var data []string
+						pred := false
+						for _, a := range atoms {
+							nn := a.Norm()
+							t := nn.Cond
+							if t.Op == "binop" && (t.Name == "<" || t.Name == "<=") && (t.Args[0].Op == "loopphi" || t.Args[0].Op == "binop" && t.Args[0].Args[0].Op == "loopphi") {
+								continue
+							}
+							if t.Op == "extract" && t.Args[0].Op == "next" {
+								continue
+							}
+							data = append(data, a.String())
+							if t.Op == "call" && strings.HasSuffix(t.Name, "(net.IP).IsPrivate") && nn.Sign && len(t.Args) == 1 && t.Args[0].Op == "field" && t.Args[0].Name == "IPAddress" && t.Args[0].Args[0].Key() == subj {
+								pred = true
+							}
+						}
+						if !pred || len(data) != 1 {
+							okPred = false
+							detail = "[" + strings.Join(data, " ∧ ") + "]"
+						}
+					}
+				}
+				gfn := core.FuncName(g)
+				R.Check(okPred, "R17.3", gfn+"#predicate", pos, gfn, "the in-place scrub depends on exactly IsPrivate(hop.IPAddress) of the scrubbed hop", "the in-place scrub is conditioned on "+detail+": it must depend on IsPrivate of the hop's own address and nothing else")
 			}
 			R.Check(len(missing) == 0, "R17.2", fn+"#placeholder", pos, fn, "a private hop is scrubbed in place: every field except TTL is reset", "a private hop is scrubbed in place but "+strings.Join(missing, ", ")+" keep(s) data derived from the private address (a fresh TTL-only placeholder resets every field implicitly)")
 			nrep = 1
